@@ -657,11 +657,13 @@ public:
 
       LPRowSetBase<R>::add(lhsValue, rowValues, rowIndices, rowSize, rhsValue);
 
-      // now insert nonzeros to column file also
-      for(int j = rowSize - 1; j >= 0; --j)
+      // now insert nonzeros to column file also (the stored row: exact zeros of the arrays are not stored)
+      const SVectorBase<R>& newrow = rowVector(idx);
+
+      for(int j = newrow.size() - 1; j >= 0; --j)
       {
-         const S& val = rowValues[j];
-         int i = rowIndices[j];
+         const R& val = newrow.value(j);
+         int i = newrow.index(j);
 
          // create new columns if required
          if(i >= nCols())
@@ -731,17 +733,17 @@ public:
       for(i = nCols() - 1; i >= 0; --i)
          newCols[i] = 0;
 
-      if(numValues > 0)
+      // count on the stored rows: exact zeros of the arrays are not stored
+      for(i = oldRowNumber; i < nRows(); i++)
       {
-         for(i = 0; i < numRows; i++)
+         const SVectorBase<R>& vec = rowVector(i);
+
+         for(j = vec.size() - 1; j >= 0; --j)
          {
-            for(j = rowStarts[i]; j < rowStarts[i] + rowLengths[i]; j++)
-            {
-               ///@todo implement the addition of new columns as in doAddRows()
-               assert(rowIndices[j] >= 0);
-               assert(rowIndices[j] < oldColNumber);
-               newCols[rowIndices[j]]++;
-            }
+            ///@todo implement the addition of new columns as in doAddRows()
+            assert(vec.index(j) >= 0);
+            assert(vec.index(j) < oldColNumber);
+            newCols[vec.index(j)]++;
          }
       }
 
@@ -827,11 +829,13 @@ public:
       if(thesense != MAXIMIZE)
          LPColSetBase<R>::maxObj_w(idx) *= -1;
 
-      // now insert nonzeros to column file also
-      for(int j = colSize - 1; j >= 0; --j)
+      // now insert nonzeros to row file also (the stored column: exact zeros of the arrays are not stored)
+      const SVectorBase<R>& newcol = colVector(idx);
+
+      for(int j = newcol.size() - 1; j >= 0; --j)
       {
-         const S& val = colValues[j];
-         int i = colIndices[j];
+         const R& val = newcol.value(j);
+         int i = newcol.index(j);
 
          // create new rows if required
          if(i >= nRows())
@@ -906,12 +910,18 @@ public:
       for(i = nRows() - 1; i >= 0; --i)
          newRows[i] = 0;
 
-      for(i = numValues - 1; i >= 0; --i)
+      // count on the stored columns: exact zeros of the arrays are not stored
+      for(i = oldColNumber; i < nCols(); i++)
       {
-         ///@todo implement the addition of new rows as in doAddCols()
-         assert(colIndices[i] >= 0);
-         assert(colIndices[i] < oldRowNumber);
-         newRows[colIndices[i]]++;
+         const SVectorBase<R>& vec = colVector(i);
+
+         for(j = vec.size() - 1; j >= 0; --j)
+         {
+            ///@todo implement the addition of new rows as in doAddCols()
+            assert(vec.index(j) >= 0);
+            assert(vec.index(j) < oldRowNumber);
+            newRows[vec.index(j)]++;
+         }
       }
 
       // extend rows as required (backward because of memory efficiency reasons)
